@@ -204,6 +204,25 @@ WRITER_METHODS = {
 }
 
 
+def loop_sum_of_lengths(b, name):
+    """is local `name` a running sum of the lengths of the elements some loop in b iterates over (init 0, step += len(elem))?"""
+    ov = vf.VF(b, inline_depth=0, opaque_loops=True)
+    l = [i for i in range(len(b.locals)) if b.local_name(i) == name]
+    for h in sorted(ov.loop_headers()):
+        for li in l:
+            try:
+                init, step = ov.loop_def(li, h)
+            except Exception:
+                continue
+            it = [vf.render(x[1], b, short=True, vfx=ov) for x in init]
+            st = [vf.render(x[1], b, short=True, vfx=ov) for x in step]
+            grows = [t for t in st if re.fullmatch(r"Add\(impl \[T\]::len\(some\(Iter::next\(loop\(iter\)\)\)\), loop\(%s\)\)" % re.escape(name), t)]
+            same = [t for t in st if t == "loop(%s)" % name]
+            if it == ["0"] and grows and len(grows) + len(same) == len(st):
+                return True
+    return False
+
+
 def check_space_dominates(ctx, rule, b, amount_text, tag):
     ctx.fn_seen(b)
     v = vf.VF(b)
@@ -230,7 +249,13 @@ def check_space_dominates(ctx, rule, b, amount_text, tag):
     else:
         # vectored: the amount is a fold over the slices' lengths
         a = vf.render(v.call_args(c0)[1], b, short=True)
-        ctx.check(rule, key + "/amount", "fold(" in a and "bufs" in a, "%s::%s: space check amount `%s` is not the sum over the slices" % (tag, b.name, a), loc=c0.loc(), detail=a)
+        okamt = "fold(" in a and "bufs" in a
+        if not okamt:
+            # or a running sum kept by a loop over the slices
+            oa = vf.render(vf.VF(b, inline_depth=0, opaque_loops=True).call_args(c0)[1], b, short=True)
+            m_ = re.fullmatch(r"loop\((\w+)\)", oa)
+            okamt = m_ is not None and loop_sum_of_lengths(b, m_.group(1))
+        ctx.check(rule, key + "/amount", okamt, "%s::%s: space check amount `%s` is not the sum over the slices" % (tag, b.name, a), loc=c0.loc(), detail=a)
 
 
 def r3_space_check(ctx, F):
@@ -529,9 +554,10 @@ def r8_retry(ctx, F, only_async=False):
                 v = vf.VF(b, inline_depth=0, opaque_loops=True)
                 tag = adt.rsplit("::", 1)[-1]
                 sw = [x for h in sorted(v.loop_headers()) for x in c10.loop_switches(b, v, h)]
-                cont = [x for x in sw if x[0] == "Lt(0, loop(count))"]
+                ef = [x[0] for h in sorted(v.loop_headers()) for x in c10.loop_edge_facts(b, v, h)]
+                cont = [d for d in ef if d in ({"Lt(0, loop(count))": "loop", "Le(loop(count), 0)": "exit"}, {"Ne(0, loop(count))": "loop", "Eq(0, loop(count))": "exit"})]
                 zero = [x for x in sw if x[0].endswith("?") and "write_from(" in x[0]]
-                ctx.check("R8-retry", "%s::write_all_from/while-count" % tag, len(cont) == 1 and cont[0][1] == {0: "exit", "otherwise": "loop"},
+                ctx.check("R8-retry", "%s::write_all_from/while-count" % tag, len(cont) == 1,
                           "%s::write_all_from must loop exactly while count > 0 (condition edges: %s)" % (tag, [(x[0][:40], x[1]) for x in sw if "count" in x[0]][:3]), loc=b.loc())
                 ctx.check("R8-retry", "%s::write_all_from/zero-is-an-error" % tag, len(zero) == 1 and zero[0][1] == {0: "exit", "otherwise": "loop"},
                           "%s::write_all_from must end with WriteZero when a transfer moves nothing" % tag, loc=b.loc())
@@ -564,7 +590,20 @@ def r2_fusedev_write(ctx, F):
         for c in live_calls(cl):
             if c.name == "extend_from_slice":
                 app.append(([vf.render(x, cl, short=True) for x in cv.call_args(c)], vf.render(cv.ret(), cl, short=True, vfx=cv)))
-    ctx.check("R2-copy-loop", "FuseDevWriter::write_vectored/appends-each-slice", app == [(["^self.buf", "b"], "Add(acc, impl [T]::len(b))")],
+    okapp = app == [(["^self.buf", "b"], "Add(acc, impl [T]::len(b))")]
+    if not app:
+        # loop spelling: every non-empty element is appended, the count returned is the running sum of their lengths
+        ov = vf.VF(w, inline_depth=0, opaque_loops=True)
+        ex = [c for c in live_calls(w) if c.name == "extend_from_slice"]
+        if len(ex) == 1:
+            a_ = [vf.render(x, w, short=True, vfx=ov) for x in ov.call_args(ex[0])]
+            g_ = [(vf.render(x, w, short=True, vfx=ov), l) for (x, l, u) in ov.guards(ex[0].bb)]
+            extra = [x for x in g_ if x not in (("self.buffered", "otherwise"), ("impl [T]::is_empty(some(Iter::next(loop(iter))))", 0)) and not x[0].startswith("discr(")]
+            rt = vf.render(ov.ret(), w, short=True, vfx=ov)
+            m_ = re.search(r"=> Ok\(loop\((\w+)\)\)", rt)
+            okapp = a_ == ["self.buf", "some(Iter::next(loop(iter)))"] and not extra and m_ is not None and loop_sum_of_lengths(w, m_.group(1))
+            app = [(a_, rt[:80])]
+    ctx.check("R2-copy-loop", "FuseDevWriter::write_vectored/appends-each-slice", okapp,
               "FuseDevWriter::write_vectored (buffered) must append every slice and add its length to the count: %s" % app, loc=w.loc())
 
 
